@@ -2699,6 +2699,11 @@ void Analyser::AnalyserImpl::analyseModel(const ModelPtr &model)
                 description += " variable of integration which cannot be used as an external variable.";
 
                 referenceRule = Issue::ReferenceRule::ANALYSER_EXTERNAL_VARIABLE_VOI;
+
+                // The variable of integration cannot be used as an external
+                // variable, so make sure that it is not treated as one.
+
+                Analyser::AnalyserImpl::internalVariable(primaryExternalVariable.first)->mIsExternal = false;
             } else {
                 description += (equivalentVariableCount == 1) ?
                                    " is marked as an external variable, but it is not a primary variable." :
